@@ -63,6 +63,7 @@ func (w *wproc) stop() (string, error) {
 }
 
 const maxAbortsPerJob = 2
+const maxMemFatalPerJob = 6
 
 func numWorkers() int {
 	n := 12
@@ -220,10 +221,20 @@ func runOne(slot int, wp **wproc, j *job, workDir string) {
 			j.herr = "worker died outside a case: " + lastLines(stderr, 3)
 			return
 		}
-		j.lines = append(j.lines, [2]string{curOp, classifyCrash(stderr, werr, reqFormatOf(j.text))})
+		cls := classifyCrash(stderr, werr, reqFormatOf(j.text))
+		j.lines = append(j.lines, [2]string{curOp, cls})
 		from = cur + 1
 		if !strings.HasPrefix(j.text, "batch ") {
 			return
+		}
+		if strings.HasPrefix(cls, "resource:") {
+			// an allocation the worker's address-space limit refuses kills the worker each time (format/caff under
+			// force allocates tens of GB from a 32-bit count at a fixed offset, so most of a file's family does it)
+			j.memFatal++
+			if j.memFatal >= maxMemFatalPerJob {
+				j.lines = append(j.lines, [2]string{"skip " + j.text + " from " + strconv.Itoa(from), "resource:job-abandoned"})
+				return
+			}
 		}
 	}
 }
@@ -258,8 +269,12 @@ func runPool(jobs []*job, workDir string) {
 			}
 		}(s)
 	}
-	for _, j := range jobs {
+	t0 := time.Now()
+	for i, j := range jobs {
 		ch <- j
+		if (i+1)%2000 == 0 {
+			fmt.Fprintf(os.Stderr, "c06: %d/%d jobs dispatched after %v\n", i+1, len(jobs), time.Since(t0).Round(time.Second))
+		}
 	}
 	close(ch)
 	wg.Wait()
